@@ -2,3 +2,4 @@ import XcmModel.Basic
 import XcmModel.Libc
 import XcmModel.AttrMap
 import XcmModel.AttrPath
+import XcmModel.Addr
